@@ -77,7 +77,10 @@ RuleCtx(Z, y) ==
   ELSE LET y0 == y \ominus W(3)
            j0 == DaysFromCivil(y0, 1, 1)
            la == LastAt(Z)
-       IN  {c \in RuleYears(Z, j0, WMod(y0, 400), 0, 0, (Weekday(j0) + 1) % 7) : la \prec c.at}
+           all == RuleYears(Z, j0, WMod(y0, 400), 0, 0, (Weekday(j0) + 1) % 7)
+           first == CHOOSE c \in all : \A d \in all : c.at \preceq d.at
+       IN  \* edge: the earliest of the twelve, whose predecessor is outside the context
+           {[at |-> c.at, T |-> c.T, edge |-> c.at = first.at] : c \in {c \in all : la \prec c.at}}
 
 \* the type in force at t, given the rule context C of a year near t
 TypeAtC(Z, C, t) ==
@@ -134,12 +137,16 @@ RECURSIVE PrevRealFrom(_, _)
 PrevRealFrom(Z, k) == IF k < 1 THEN 0 ELSE IF IsRealChange(Z, k) THEN k ELSE PrevRealFrom(Z, k - 1)
 NextRecorded(Z, t) == NextRealFrom(Z, IdxLE(Z, t) + 1)              \* 0 = none
 PrevRecorded(Z, t) == PrevRealFrom(Z, IdxLE(Z, t \ominus W(1)))     \* latest strictly before t
-\* rule-generated changes (only with a dst rule; start and end always differ in the DST flag)
-NextRuleChange(Z, t) ==      \* earliest rule instant after max(t, LastAt)
+\* rule-generated changes (only with a dst rule).  A rule instant is a real change unless it
+\* introduces the type already in force (possible for the first one after the recorded data).
+IsRealRule(Z, C, c) == ~c.edge /\ ~Equiv(TypeAtC(Z, C, c.at \ominus W(1)), c.T)
+NextRuleChange(Z, t) ==      \* earliest real rule change after max(t, LastAt)
   LET b == WMax(t, LastAt(Z))
-      v == {c.at : c \in {c \in RuleCtx(Z, UtcYear(b)) : b \prec c.at}}
+      C == RuleCtx(Z, UtcYear(b))
+      v == {c.at : c \in {c \in C : b \prec c.at /\ IsRealRule(Z, C, c)}}
   IN  CHOOSE c \in v : \A d \in v : c \preceq d
-RuleChangesBefore(Z, t) == {c.at : c \in {c \in RuleCtx(Z, UtcYear(t)) : c.at \prec t}}
+RuleChangesBefore(Z, t) ==   \* the real rule changes of the years around t that lie before t
+  LET C == RuleCtx(Z, UtcYear(t)) IN {c.at : c \in {c \in C : c.at \prec t /\ IsRealRule(Z, C, c)}}
 
 \* ---- the premise of C02/C03/C06: changes farther apart than the sum of their sizes ----
 Abs(x) == IF x < 0 THEN -x ELSE x
